@@ -437,7 +437,9 @@ class AirTouchSocket(Generic[comms.Hdr]):
             return
 
         try:
-            while self._message_queue:
+            # The connection can be lost while a write is suspended; stop draining
+            # then and leave the remaining messages queued for the next connection.
+            while self._message_queue and self.is_connected:
                 entry = self._message_queue.popleft()
 
                 if self._loop.time() < entry.expiry:
